@@ -138,6 +138,9 @@ func init() {
 			d = m.decideN(n, "choice:"+m.mustStr(a[0]))
 		}
 		m.labels = append(m.labels, fmt.Sprintf("%s=%d", m.mustStr(a[0]), d))
+		if n > 1 {
+			m.choices = append(m.choices, d)
+		}
 		return m.ts.Const(64, uint64(d)), true
 	})
 	nd("Bytes", func(m *Machine, th *Thread, fn *ssa.Function, a []Value) (Value, bool) {
